@@ -80,7 +80,7 @@ RULE = ('formulas evaluated by one shared hotxlfp.Parser (kinds choose, index, m
         'are skipped. When a proof or the correspondence broke and no case failed: the thorough family at scale 2 without the fn cases, '
         'oracle only, up to the first failure. A failing INDEX case is shrunk to a smaller array of the same fill that still fails. '
         'No time or step budgets. Non-trivial = no error and: CHOOSE gave a value / INDEX gave something other than the whole '
-        'array (element, row, column) / MATCH found a position / INDEX(MATCH) gave a value; fn cases never count.')
+        'array (element, row, column) / MATCH found a position / INDEX(MATCH) gave a value; fn cases never count. Lookup values through a cell (key xvia): 6 small arrays holding a zero, FALSE or an empty text, every element looked up with MATCH and INDEX(MATCH) as the value of cell Z9 answered by the callCellValue listener of the host (the model gets the same cell): the value it is, not a blank.')
 TRUSTED = ['Python list/str subscripting, ==, <, > on int/float/bool/str/list (modelled by hand in Model/Fn/Lookup.lean)',
            'fnmatch.fnmatch on patterns without "[" (modelled as globMatch; Props/C18.glob_spec characterises it); '
            'os.path.normcase is the identity on Linux; str.lower on ASCII',
@@ -161,8 +161,13 @@ def parser():
         def on_range(start, end, setter):
             setter(_rangeval.get((start.label, end.label)))
         p.on('callRangeValue', on_range)
+        # xvia cell: the lookup value as the value of cell Z9 answered by the host's listener (0, FALSE and '' are values)
+        p.on('callCellValue', lambda cell, setter: setter(_cellval.get(cell.label)))
         _p[0] = p
     return _p[0]
+
+
+_cellval = {}
 
 
 def _mod():
@@ -300,7 +305,10 @@ def formula_of(c):
             f = 'INDEX(%s%s%s%s%s)' % (at, sp, spec_text(r), sp, spec_text(cc))
         return f, vs, rs
     x = c['x']
-    if c.get('src', 'var') == 'lit':
+    if c.get('xvia') == 'cell':
+        xt = 'Z9'
+        _cellval['Z9'] = x
+    elif c.get('src', 'var') == 'lit':
         xt = lit_value(x)
     else:
         xt = 'X'
@@ -559,6 +567,11 @@ def cases(rng, ctx):
                 out.append({'kind': 'im', 'src': src, 'arr': arr, 'x': x})
                 out.append({'kind': 'index', 'src': src, 'arr': arr, 'r': i + 1, 'c': 'omit', 'sep': ','})
             out.append({'kind': 'choose', 'vals': arr, 'i': i + 1})
+    # ---- the lookup value as the value of a cell answered by the host's listener: a zero, FALSE or an empty text is the value it is
+    for arr in ([0, 1, 2], [5, 0, 7], ['', 'a', 'b'], ['x', '', 'y'], [False, True], [0.0, 1.5]):
+        for x in arr:
+            out.append({'kind': 'match', 'src': 'var', 'arr': arr, 'x': x, 't': 0, 'xvia': 'cell'})
+            out.append({'kind': 'im', 'src': 'var', 'arr': arr, 'x': x, 'xvia': 'cell'})
     # ---- whole numbers beyond 2^53 (ids): written in the formula or handed over by the host, they are themselves
     B = 2 ** 53
     ids = [B - 9, B - 8, B + 1, B + 3, 9999999999999999, 12345678901234567]
@@ -586,7 +599,8 @@ def request(c):
     if c['kind'] == 'fn':
         return 'fn %s %s' % (enc_str(c['name']), ' '.join(fx.to_wire(v) for v in c['args']))
     f, vs, rs = formula_of(c)
-    return 'eval %s %s' % (enc_str(f), fx.env_wire(variables=vs, ranges=rs))
+    cells = {'Z9': c['x']} if c.get('xvia') == 'cell' else None
+    return 'eval %s %s' % (enc_str(f), fx.env_wire(variables=vs, ranges=rs, cells=cells))
 
 
 def impl(c):
